@@ -22,13 +22,35 @@ def load_lib(repo):
     return npstructures
 
 
+def global_state():
+    """process-global state a library call could leak into: numpy print options / error state, the index-width switch"""
+    import numpy as np
+    st = {"printoptions": {k: (v if isinstance(v, (int, float, str, bool, type(None))) else repr(v)) for k, v in np.get_printoptions().items()}, "geterr": np.geterr()}
+    try:
+        from npstructures.raggedshape import ViewBase
+        st["index_width"] = np.dtype(ViewBase._dtype).name
+    except Exception:
+        pass
+    return st
+
+
 def run_one(prop, case, ctx):
     from .core import Result, INCONCLUSIVE, VIOLATED, violated
     ctx.take_alerts()
+    watch = getattr(prop, "GLOBAL_STATE_MONITOR", False)
+    before = global_state() if watch else None
     try:
         with warnings.catch_warnings():
             warnings.simplefilter("ignore")
             res = prop.run(case)
+        if watch:
+            ctx.tick("global-state")
+            after = global_state()
+            if after != before and res["verdict"] != VIOLATED:
+                changed = {k: (before[k], after[k]) for k in before if before[k] != after.get(k)}
+                import numpy as np
+                np.set_printoptions(**{k: v for k, v in before["printoptions"].items() if k in ("linewidth", "precision", "threshold", "edgeitems", "suppress")})
+                res = violated("the operations of this case changed process-global state that later outcomes depend on: %s" % (changed,), list(res["tags"]) + ["global-state-leak"])
     except Exception:
         # harness failure (generator / model / tap): never a violation, never a pass
         return Result(INCONCLUSIVE, ["harness-error"], traceback.format_exc(limit=8), False)
